@@ -13,8 +13,8 @@ PathsOf(ps) == [i \in 1..Len(ps) |-> P(ps[i][1], ps[i][2])]
 WOf(j) == [fs |-> [d \in Dirs |-> ToSet(j.fs[d])], dotenv |-> j.dotenv, os |-> EnvOf(j.os), configs |-> PathsOf(j.configs)]
 OOf(j) == IF "err" \in DOMAIN j THEN Error
           ELSE IF "vv" \in DOMAIN j /\ "dir" \notin DOMAIN j THEN [name |-> j.name, vv |-> j.vv]
-          ELSE IF "dir" \in DOMAIN j THEN [name |-> j.name, dir |-> j.dir, files |-> PathsOf(j.files), vv |-> j.vv, hasvv |-> j.hasvv]
-          ELSE [paths |-> PathsOf(j.paths), wd |-> j.wd, env |-> EnvOf(j.env), envfiles |-> PathsOf(j.envfiles), name |-> j.name]
+          ELSE IF "dir" \in DOMAIN j THEN [name |-> j.name, dir |-> j.dir, files |-> PathsOf(j.files), vv |-> j.vv, hasvv |-> j.hasvv, profiles |-> j.profiles, dbg |-> j.dbg]
+          ELSE [paths |-> PathsOf(j.paths), wd |-> j.wd, env |-> EnvOf(j.env), envfiles |-> PathsOf(j.envfiles), name |-> j.name, prof |-> NoProf]
 
 Apply(e, x) ==
   CASE e.act = "name" -> WithName(x, e.arg)
@@ -26,6 +26,8 @@ Apply(e, x) ==
     [] e.act = "env-files-default" -> WithEnvFilesDefault(x)
     [] e.act = "env-files" -> WithEnvFiles(x, PathsOf(e.arg))
     [] e.act = "dot-env" -> WithDotEnv(x)
+    [] e.act = "profiles" -> WithProfiles(x, e.arg)
+    [] e.act = "default-profiles" -> WithDefaultProfiles(x, e.arg)
     [] e.act = "load" -> Loaded(x)
     [] e.act = "load-model" -> LoadedModel(x)
 
@@ -39,10 +41,16 @@ Next ==
   /\ l <= Len(Trace)
   /\ \/ /\ phase = "world" /\ w' = WOf(Trace[l].w) /\ phase' = "judge" /\ UNCHANGED <<o, l, bad, bad2>>
      \/ /\ phase = "judge" /\ phase' = "world" /\ l' = l + 1 /\ UNCHANGED w
-        /\ LET e == Trace[l]  exp == Apply(e, OOf(e.from))
+        /\ LET e == Trace[l]
                start == IF e.first THEN OOf(e.from) ELSE o
+               \* the requested profiles are not logged (a private field): the step is judged with the value the specification
+               \* has reached, and compared without it unless the step is a load, whose outcome shows it
+               hidden == IF IsErr(start) THEN NoProf ELSE start.prof
+               from == [OOf(e.from) EXCEPT !.prof = hidden]
+               Mask(x) == IF "prof" \in DOMAIN x THEN [x EXCEPT !.prof = NoProf] ELSE x
+               exp == Apply(e, from)
                own == IF IsErr(start) THEN Error ELSE Apply(e, start) IN
-           /\ bad' = IF exp # OOf(e.to) /\ Len(bad) < 200 THEN Append(bad, <<l, exp>>) ELSE bad
+           /\ bad' = IF Mask(exp) # Mask(OOf(e.to)) /\ Len(bad) < 200 THEN Append(bad, <<l, exp>>) ELSE bad
            /\ o' = own
            /\ bad2' = IF e.act \in {"load", "load-model"} /\ own # OOf(e.to) /\ Len(bad2) < 200 THEN Append(bad2, <<l, own>>) ELSE bad2
 Spec == Init /\ [][Next]_tvars
